@@ -69,6 +69,8 @@ func (h *ValueReader) HandleArrayValue(data []byte) (p int, err error) {
 		if mpLen > h.maxMapSize {
 			h.maxMapSize = mpLen
 		}
+		// size the next sibling after this one, not after the largest one ever seen
+		h.maxMapSize = mpLen
 		h.returnValueReader(h2)
 	case ArrayStartType:
 		h2 := h.borrowValueReader()
@@ -120,6 +122,8 @@ func (h *ValueReader) HandleObjectValue(fieldname, data []byte) (p int, err erro
 		if mpLen > h.maxMapSize {
 			h.maxMapSize = mpLen
 		}
+		// size the next sibling after this one, not after the largest one ever seen
+		h.maxMapSize = mpLen
 		h.returnValueReader(h2)
 	case ArrayStartType:
 		h2 := h.borrowValueReader()
